@@ -74,6 +74,38 @@ theorem remJob_no_id {id : Nat} {l : List Job} (h : l.Pairwise (fun a b => a.id 
       · exact hyi
       · exact ih hy.2 x hx
 
+/-- the same for the second loop of `rem`, over `c.running` -/
+theorem cancelRunning_sublist (id : Nat) (l : List Job) : (cancelRunning id l).Sublist l := by
+  unfold cancelRunning; split
+  · exact eraseP_sublist
+  · exact Sublist.refl _
+
+theorem cancelRunning_no_id {id : Nat} {l : List Job} (h : l.Pairwise (fun a b => a.id ≠ b.id)) :
+    ∀ x ∈ cancelRunning id l, x.id ≠ id := by
+  have hr : remCancelsRunning = true := rfl
+  have := remJob_no_id (id := id) h
+  simpa only [remJob, cancelRunning, hr, show remErases = true from rfl, if_true] using this
+
+/-- a symmetric relation that holds pairwise holds between any two different members -/
+theorem pairwise_mem_ne {α : Type} {R : α → α → Prop} (hs : ∀ a b, R a b → R b a) {l : List α} (h : l.Pairwise R) :
+    ∀ a ∈ l, ∀ b ∈ l, a ≠ b → R a b := by
+  induction l with
+  | nil => intro a ha; cases ha
+  | cons y ys ih =>
+    have hy := pairwise_cons.1 h
+    intro a ha b hb hne
+    rcases mem_cons.1 ha with ha | ha <;> rcases mem_cons.1 hb with hb | hb
+    · exact absurd (ha.trans hb.symm) hne
+    · rw [ha]; exact hy.1 b hb
+    · rw [hb]; exact hs _ _ (hy.1 a ha)
+    · exact ih hy.2 a ha b hb hne
+
+/-- erasing from the larger list something the smaller list does not contain keeps the sublist relation -/
+theorem sublist_eraseP_of_forall_not {α : Type} {p : α → Bool} {l₁ l₂ : List α} (h : l₁.Sublist l₂) (hn : ∀ x ∈ l₁, ¬ p x = true) :
+    l₁.Sublist (l₂.eraseP p) := by
+  have e : l₁.eraseP p = l₁ := eraseP_of_forall_not hn
+  rw [← e]; exact h.eraseP
+
 theorem nextOcc_gt {p now : Nat} (hp : p ≠ 0) : now < nextOcc p now := by
   unfold nextOcc
   have hp' : 0 < p := Nat.pos_of_ne_zero hp
@@ -88,11 +120,11 @@ theorem nextOcc_mod (p now : Nat) : nextOcc p now % p = 0 := by
 /-! ## the invariant -/
 
 /-- the invariant of the cron state machine, on the components it talks about -/
-structure WFc (tl infl : List Job) (log : List Fire) (clock serial : Nat) : Prop where
+structure WFc (tl infl run : List Job) (log : List Fire) (clock serial : Nat) : Prop where
   /-- the timeline is sorted by `Next` -/
   sorted : tl.Pairwise (fun a b => a.next ≤ b.next)
-  /-- at most one pending entry per id -/
-  nodupId : tl.Pairwise (fun a b => a.id ≠ b.id)
+  /-- at most one entry per id among the pending jobs and the running jobs that will be re-scheduled -/
+  nodupIdR : (tl ++ run).Pairwise (fun a b => a.id ≠ b.id)
   /-- a job object is pending or in flight, never both, never twice -/
   nodupSer : (tl ++ infl).Pairwise (fun a b => a.serial ≠ b.serial)
   serLt : ∀ j ∈ tl ++ infl, j.serial < serial
@@ -104,19 +136,42 @@ structure WFc (tl infl : List Job) (log : List Fire) (clock serial : Nat) : Prop
   /-- the log is in reverse chronological order: a later fire of the same job object is a recurring one, for a later occurrence -/
   logPair : log.Pairwise (fun f' f => f'.serial = f.serial →
     f'.id = f.id ∧ f'.period = f.period ∧ f'.period ≠ 0 ∧ f.time < f'.due)
+  /-- `c.running` holds jobs whose `Fn` is executing (in the order they were popped) … -/
+  runSub : run.Sublist infl
+  /-- … and only recurring ones -/
+  runRec : ∀ j ∈ run, j.period ≠ 0
 
-abbrev WF (s : Cron) : Prop := WFc s.tl s.inflight s.log s.clock s.serial
+abbrev WF (s : Cron) : Prop := WFc s.tl s.inflight s.running s.log s.clock s.serial
 
-theorem WFc.init (c n : Nat) : WFc [] [] [] c n := by
+/-- at most one pending entry per id -/
+theorem WFc.nodupId {tl infl run : List Job} {log c n} (h : WFc tl infl run log c n) : tl.Pairwise (fun a b => a.id ≠ b.id) :=
+  (pairwise_append.1 h.nodupIdR).1
+
+theorem WFc.nodupIdRun {tl infl run : List Job} {log c n} (h : WFc tl infl run log c n) : run.Pairwise (fun a b => a.id ≠ b.id) :=
+  (pairwise_append.1 h.nodupIdR).2.1
+
+theorem WFc.nodupSerInfl {tl infl run : List Job} {log c n} (h : WFc tl infl run log c n) : infl.Pairwise (fun a b => a.serial ≠ b.serial) :=
+  (pairwise_append.1 h.nodupSer).2.1
+
+/-- the entry of `c.running` with a given serial is the in-flight job with that serial -/
+theorem WFc.run_eq {tl infl run : List Job} {log c n} (h : WFc tl infl run log c n) {x j : Job}
+    (hx : x ∈ run) (hj : j ∈ infl) (hs : x.serial = j.serial) : x = j := by
+  have hxi : x ∈ infl := h.runSub.subset hx
+  by_cases e : x = j
+  · exact e
+  · exact absurd hs (pairwise_mem_ne (fun a b hab => fun e => hab e.symm) h.nodupSerInfl x hxi j hj e)
+
+theorem WFc.init (c n : Nat) : WFc [] [] [] [] c n := by
   constructor <;> simp
 
-theorem WFc.mono {tl infl tl' infl' : List Job} {log c n c' n'}
-    (h : WFc tl infl log c n) (h1 : tl'.Sublist tl) (h2 : infl'.Sublist infl) (hc : c ≤ c') (hn : n ≤ n') :
-    WFc tl' infl' log c' n' := by
+theorem WFc.mono {tl infl run tl' infl' run' : List Job} {log c n c' n'}
+    (h : WFc tl infl run log c n) (h1 : tl'.Sublist tl) (h2 : infl'.Sublist infl) (h3 : run'.Sublist run)
+    (h4 : run'.Sublist infl') (hc : c ≤ c') (hn : n ≤ n') :
+    WFc tl' infl' run' log c' n' := by
   have h12 : (tl' ++ infl').Sublist (tl ++ infl) := Sublist.append h1 h2
   constructor
   · exact h.sorted.sublist h1
-  · exact h.nodupId.sublist h1
+  · exact h.nodupIdR.sublist (Sublist.append h1 h3)
   · exact h.nodupSer.sublist h12
   · intro j hj; exact Nat.lt_of_lt_of_le (h.serLt j (h12.subset hj)) hn
   · intro j hj; exact h.occ j (h12.subset hj)
@@ -126,19 +181,23 @@ theorem WFc.mono {tl infl tl' infl' : List Job} {log c n c' n'}
   · intro f hf j hj; exact h.link f hf j (h12.subset hj)
   · intro f hf j hj; exact h.pend f hf j (h1.subset hj)
   · exact h.logPair
+  · exact h4
+  · intro j hj; exact h.runRec j (h3.subset hj)
 
-theorem WFc.insert {tl infl : List Job} {log c n} (h : WFc tl infl log c n) (j : Job)
-    (hser : j.serial < n) (hfresh : ∀ x ∈ tl ++ infl, x.serial ≠ j.serial) (hid : ∀ x ∈ tl, x.id ≠ j.id)
+theorem WFc.insert {tl infl run : List Job} {log c n} (h : WFc tl infl run log c n) (j : Job)
+    (hser : j.serial < n) (hfresh : ∀ x ∈ tl ++ infl, x.serial ≠ j.serial) (hid : ∀ x ∈ tl ++ run, x.id ≠ j.id)
     (hocc : j.period ≠ 0 → j.next % j.period = 0)
     (hlog : ∀ f ∈ log, f.serial = j.serial → j.id = f.id ∧ j.period = f.period ∧ j.period ≠ 0 ∧ f.time < j.next) :
-    WFc (insertJob j tl) infl log c n := by
+    WFc (insertJob j tl) infl run log c n := by
   have hp : (insertJob j tl ++ infl).Perm (j :: (tl ++ infl)) := by
     simpa using (insertJob_perm j tl).append_right infl
+  have hpr : (insertJob j tl ++ run).Perm (j :: (tl ++ run)) := by
+    simpa using (insertJob_perm j tl).append_right run
   have hmem : ∀ x, x ∈ insertJob j tl ++ infl → x = j ∨ x ∈ tl ++ infl := by
     intro x hx; simpa using hp.mem_iff.1 hx
   constructor
   · exact insertJob_sorted j h.sorted
-  · refine ((insertJob_perm j tl).pairwise_iff ?_).2 (pairwise_cons.2 ⟨?_, h.nodupId⟩)
+  · refine (hpr.pairwise_iff ?_).2 (pairwise_cons.2 ⟨?_, h.nodupIdR⟩)
     · intro a b hab; exact fun e => hab e.symm
     · intro x hx; exact fun e => hid x hx e.symm
   · refine (hp.pairwise_iff ?_).2 (pairwise_cons.2 ⟨?_, h.nodupSer⟩)
@@ -158,6 +217,8 @@ theorem WFc.insert {tl infl : List Job} {log c n} (h : WFc tl infl log c n) (j :
     · obtain ⟨_, _, a, b⟩ := hlog f hf hs.symm; exact ⟨a, b⟩
     · exact h.pend f hf x hx hs
   · exact h.logPair
+  · exact h.runSub
+  · exact h.runRec
 
 /-! ## preservation, operation by operation -/
 
@@ -168,6 +229,11 @@ theorem schedule_fst_fields (s : Cron) (j : Job) (b : Bool) :
     (schedule s j b).1.paused = s.paused := by
   unfold schedule; dsimp only
   by_cases hc : atLimit s b (if scheduleRemsFirst = true then remJob j.id s.tl else s.tl) = true <;> simp [hc]
+
+theorem schedule_running (s : Cron) (j : Job) (b : Bool) : (schedule s j b).1.running = cancelRunning j.id s.running := by
+  have hr : scheduleRemsFirst = true := rfl
+  unfold schedule; dsimp only; simp only [hr, if_true]
+  by_cases hc : atLimit s b (remJob j.id s.tl) = true <;> simp [hc]
 
 theorem schedule_tl (s : Cron) (j : Job) (b : Bool) :
     (schedule s j b).1.tl = remJob j.id s.tl ∨ (schedule s j b).1.tl = insertJob (schedJob s.clock j) (remJob j.id s.tl) := by
@@ -197,11 +263,12 @@ theorem WF_schedule {s : Cron} (h : WF s) (j : Job) (b : Bool)
     (hlog : ∀ f ∈ s.log, f.serial = j.serial → j.id = f.id ∧ j.period = f.period ∧ j.period ≠ 0) :
     WF (schedule s j b).1 := by
   obtain ⟨e1, e2, e3, e4, _, _, _⟩ := schedule_fst_fields s j b
-  show WFc _ _ _ _ _
-  rw [e1, e2, e3, e4]
+  show WFc _ _ _ _ _ _
+  rw [e1, e2, e3, e4, schedule_running]
   have hsub := remJob_sublist j.id s.tl
-  have h1 : WFc (remJob j.id s.tl) s.inflight s.log s.clock s.serial :=
-    h.mono hsub (Sublist.refl _) (Nat.le_refl _) (Nat.le_refl _)
+  have hsubr := cancelRunning_sublist j.id s.running
+  have h1 : WFc (remJob j.id s.tl) s.inflight (cancelRunning j.id s.running) s.log s.clock s.serial :=
+    h.mono hsub (Sublist.refl _) hsubr (hsubr.trans h.runSub) (Nat.le_refl _) (Nat.le_refl _)
   obtain ⟨i1, i2, i3⟩ := schedJob_id s.clock j
   rcases schedule_tl s j b with e | e <;> rw [e]
   · exact h1
@@ -209,7 +276,10 @@ theorem WF_schedule {s : Cron} (h : WF s) (j : Job) (b : Bool)
     · rw [i2]; exact hser
     · intro x hx; rw [i2]
       exact hfresh x ((Sublist.append hsub (Sublist.refl _)).subset hx)
-    · intro x hx; rw [i1]; exact remJob_no_id h.nodupId x hx
+    · intro x hx; rw [i1]
+      rcases mem_append.1 hx with hx | hx
+      · exact remJob_no_id h.nodupId x hx
+      · exact cancelRunning_no_id h.nodupIdRun x hx
     · rw [i3]; intro hp
       rcases schedJob_next s.clock j with ⟨h0, _⟩ | ⟨_, hn⟩
       · exact absurd h0 hp
@@ -226,7 +296,7 @@ theorem WF_schedule {s : Cron} (h : WF s) (j : Job) (b : Bool)
 theorem WF_add {s : Cron} (h : WF s) (id due period : Nat) : WF (step s (.add id due period)) := by
   simp only [step]
   apply WF_schedule
-  · exact h.mono (Sublist.refl _) (Sublist.refl _) (Nat.le_refl _) (Nat.le_succ _)
+  · exact h.mono (Sublist.refl _) (Sublist.refl _) (Sublist.refl _) h.runSub (Nat.le_refl _) (Nat.le_succ _)
   · simp
   · intro x hx; exact Nat.ne_of_lt (h.serLt x hx)
   · intro f hf hs
@@ -234,7 +304,8 @@ theorem WF_add {s : Cron} (h : WF s) (id due period : Nat) : WF (step s (.add id
 
 theorem WF_rem {s : Cron} (h : WF s) (id : Nat) : WF (step s (.rem id)) := by
   simp only [step]
-  exact h.mono (remJob_sublist id s.tl) (Sublist.refl _) (Nat.le_refl _) (Nat.le_refl _)
+  exact h.mono (remJob_sublist id s.tl) (Sublist.refl _) (cancelRunning_sublist id s.running)
+    ((cancelRunning_sublist id s.running).trans h.runSub) (Nat.le_refl _) (Nat.le_refl _)
 
 /-- the state after the timer bookkeeping of `tick` -/
 def tickArm (s : Cron) : Cron :=
@@ -244,19 +315,46 @@ def tickArm (s : Cron) : Cron :=
 
 theorem tickArm_fields (s : Cron) : (tickArm s).tl = s.tl ∧ (tickArm s).inflight = s.inflight ∧ (tickArm s).log = s.log ∧
     (tickArm s).clock = s.clock ∧ (tickArm s).serial = s.serial ∧ (tickArm s).suspended = s.suspended ∧
-    (tickArm s).paused = s.paused ∧ (tickArm s).limit = s.limit := by
+    (tickArm s).paused = s.paused ∧ (tickArm s).limit = s.limit ∧ (tickArm s).running = s.running := by
   unfold tickArm; split
   · split <;> simp
   · simp
 
+/-- the state after a delivery that pops nothing: the timer is re-armed for the head (if there is one) -/
+def tickIdle (s : Cron) : Cron :=
+  match s.tl with
+  | [] => tickArm s
+  | _ :: _ => { tickArm s with armed := rearm s.tl }
+
+theorem tickIdle_fields (s : Cron) : (tickIdle s).tl = s.tl ∧ (tickIdle s).inflight = s.inflight ∧ (tickIdle s).log = s.log ∧
+    (tickIdle s).clock = s.clock ∧ (tickIdle s).serial = s.serial ∧ (tickIdle s).suspended = s.suspended ∧
+    (tickIdle s).paused = s.paused ∧ (tickIdle s).limit = s.limit ∧ (tickIdle s).running = s.running := by
+  obtain ⟨a1, a2, a3, a4, a5, a6, a7, a8, a9⟩ := tickArm_fields s
+  unfold tickIdle; split
+  · exact ⟨a1, a2, a3, a4, a5, a6, a7, a8, a9⟩
+  · exact ⟨a1, a2, a3, a4, a5, a6, a7, a8, a9⟩
+
+/-- `c.running` after the pop of `j` -/
+def tickRun (j : Job) (r : List Job) : List Job := if popTracksRunning && j.period != 0 then j :: r else r
+
+theorem tickRun_cases (j : Job) (r : List Job) : (j.period ≠ 0 ∧ tickRun j r = j :: r) ∨ (j.period = 0 ∧ tickRun j r = r) := by
+  have hp : popTracksRunning = true := rfl
+  unfold tickRun
+  by_cases h : j.period = 0
+  · right; simp [h]
+  · left; simp [h, hp]
+
 /-- what `tick` does, case by case -/
 theorem tick_cases (s : Cron) :
     (tick s = s ∧ s.paused = true) ∨
-    (tick s = tickArm s ∧ s.paused = false ∧ (s.tl = [] ∨ ∃ j rest, s.tl = j :: rest ∧ readyTest s.clock j.next = false)) ∨
+    (tick s = tickIdle s ∧ s.paused = false ∧ (s.tl = [] ∨ ∃ j rest, s.tl = j :: rest ∧ readyTest s.clock j.next = false)) ∨
     (∃ j rest, s.paused = false ∧ s.tl = j :: rest ∧ readyTest s.clock j.next = true ∧
-      tick s = { tickArm s with tl := rest, inflight := j :: s.inflight, log := fireOf j s.clock :: s.log, armed := rearm rest }) := by
+      tick s = { tickArm s with tl := rest, inflight := j :: s.inflight, log := fireOf j s.clock :: s.log,
+                                running := tickRun j s.running, armed := rearm rest }) := by
   have hp : popDropsHead = true := rfl
-  obtain ⟨e1, e2, e3, e4, _⟩ := tickArm_fields s
+  have hpr : popRearms = true := rfl
+  have hta : tickRearmsAlways = true := rfl
+  obtain ⟨e1, e2, e3, e4, _, _, _, _, e9⟩ := tickArm_fields s
   by_cases hpz : s.paused = true
   · left; simp [tick, hpz]
   · have hpz' : s.paused = false := by simpa using hpz
@@ -266,19 +364,22 @@ theorem tick_cases (s : Cron) :
         | j :: rest =>
           if readyTest (tickArm s).clock j.next then
             let tl' := if popDropsHead then rest else j :: rest
-            { tickArm s with tl := tl', inflight := j :: (tickArm s).inflight, log := fireOf j (tickArm s).clock :: (tickArm s).log, armed := rearm tl' }
-          else tickArm s) := by
+            { tickArm s with tl := tl', inflight := j :: (tickArm s).inflight, log := fireOf j (tickArm s).clock :: (tickArm s).log,
+                             running := if popTracksRunning && j.period != 0 then j :: (tickArm s).running else (tickArm s).running,
+                             armed := if popRearms then rearm tl' else (tickArm s).armed }
+          else if tickRearmsAlways then { tickArm s with armed := rearm (tickArm s).tl } else tickArm s) := by
       simp only [tick, hpz', tickArm]; rfl
     cases htl : s.tl with
     | nil =>
       left; refine ⟨?_, hpz', Or.inl rfl⟩
-      rw [ht, e1, htl]
+      rw [ht, e1, htl]; simp [tickIdle, htl]
     | cons j rest =>
       by_cases hr : readyTest s.clock j.next = true
       · right; refine ⟨j, rest, hpz', rfl, hr, ?_⟩
-        rw [ht, e1, htl]; simp only [e4, hr, if_true, hp, e2, e3]
+        rw [ht, e1, htl]; simp only [e4, hr, if_true, hp, hpr, e2, e3, e9, tickRun]
       · left; refine ⟨?_, hpz', Or.inr ⟨j, rest, rfl, by simpa using hr⟩⟩
-        rw [ht, e1, htl]; simp only [e4, hr]; simp
+        rw [ht, e1, htl]; simp only [e4, hr, hta, e1, htl]; simp [tickIdle, htl]
+        exact ⟨(e1.trans htl).symm, e4.symm⟩
 
 theorem readyTest_le {now next : Nat} (h : readyTest now next = true) : next ≤ now := by
   have h' := h
@@ -288,13 +389,14 @@ theorem le_readyTest {now next : Nat} (h : next ≤ now) : readyTest now next = 
   simp [readyTest] <;> omega
 
 theorem WF_tick {s : Cron} (h : WF s) : WF (tick s) := by
-  obtain ⟨e1, e2, e3, e4, e5, _⟩ := tickArm_fields s
+  obtain ⟨_, _, _, e4, e5, _⟩ := tickArm_fields s
+  obtain ⟨i1, i2, i3, i4, i5, _, _, _, i9⟩ := tickIdle_fields s
   rcases tick_cases s with ⟨e, _⟩ | ⟨e, _, _⟩ | ⟨j, rest, _, htl, hr, e⟩
   · rw [e]; exact h
-  · rw [e]; show WFc _ _ _ _ _; rw [e1, e2, e3, e4, e5]; exact h
-  · rw [e]; show WFc rest (j :: s.inflight) (fireOf j s.clock :: s.log) (tickArm s).clock (tickArm s).serial
+  · rw [e]; show WFc _ _ _ _ _ _; rw [i1, i2, i3, i4, i5, i9]; exact h
+  · rw [e]; show WFc rest (j :: s.inflight) (tickRun j s.running) (fireOf j s.clock :: s.log) (tickArm s).clock (tickArm s).serial
     rw [e4, e5]
-    have h' : WFc (j :: rest) s.inflight s.log s.clock s.serial := by have := h; unfold WF at this; rw [htl] at this; exact this
+    have h' : WFc (j :: rest) s.inflight s.running s.log s.clock s.serial := by have := h; unfold WF at this; rw [htl] at this; exact this
     have hle := readyTest_le hr
     have hp : (rest ++ j :: s.inflight).Perm ((j :: rest) ++ s.inflight) := by
       simp
@@ -311,7 +413,12 @@ theorem WF_tick {s : Cron} (h : WF s) : WF (tick s) := by
       · exact absurd hs.symm (hh.1 x (by simp [hx]))
     constructor
     · exact (pairwise_cons.1 h'.sorted).2
-    · exact (pairwise_cons.1 h'.nodupId).2
+    · -- rest ++ (j :: running) is a permutation of (j :: rest) ++ running; without j it is a sublist
+      rcases tickRun_cases j s.running with ⟨_, er⟩ | ⟨_, er⟩ <;> rw [er]
+      · have hpr : (rest ++ j :: s.running).Perm ((j :: rest) ++ s.running) := by simp
+        refine (hpr.pairwise_iff ?_).2 h'.nodupIdR
+        intro a b hab; exact fun e => hab e.symm
+      · exact h'.nodupIdR.sublist (by simp)
     · refine (hp.pairwise_iff ?_).2 h'.nodupSer
       intro a b hab; exact fun e => hab e.symm
     · intro x hx; exact h'.serLt x (hmem x hx)
@@ -336,6 +443,15 @@ theorem WF_tick {s : Cron} (h : WF s) : WF (tick s) := by
       obtain ⟨a, b⟩ := h'.link f hf j hjmem hs
       obtain ⟨c, d⟩ := h'.pend f hf j (by simp) hs
       exact ⟨a, b, c, d⟩
+    · rcases tickRun_cases j s.running with ⟨_, er⟩ | ⟨_, er⟩ <;> rw [er]
+      · exact h'.runSub.cons_cons j
+      · exact h'.runSub.cons j
+    · rcases tickRun_cases j s.running with ⟨hp0, er⟩ | ⟨_, er⟩ <;> rw [er]
+      · intro x hx
+        rcases mem_cons.1 hx with rfl | hx
+        · exact hp0
+        · exact h'.runRec x hx
+      · exact h'.runRec
 
 /-- once the (unique) in-flight job with serial `k` is erased no job with that serial is left -/
 theorem eraseP_serial_gone {l : List Job} {k : Nat} (hinf : l.Pairwise (fun a b => a.serial ≠ b.serial)) :
@@ -357,49 +473,39 @@ theorem eraseP_serial_gone {l : List Job} {k : Nat} (hinf : l.Pairwise (fun a b 
       · exact hyk
       · exact ih hy.2 x hx
 
-theorem WF_done {s : Cron} (h : WF s) (k : Nat) : WF (done s k) := by
-  have hro : rescheduleOnce = false := rfl
-  have hrr : rescheduleRecurring = true := rfl
-  unfold done
-  split
-  · exact h
-  · rename_i j hfind
-    have hjmem : j ∈ s.inflight := mem_of_find?_eq_some hfind
-    have hjser : j.serial = k := by simpa using find?_some hfind
-    have hsub : (s.inflight.eraseP (fun j => j.serial == k)).Sublist s.inflight := eraseP_sublist
-    have h1 : WFc s.tl (s.inflight.eraseP (fun j => j.serial == k)) s.log s.clock s.serial :=
-      h.mono (Sublist.refl _) hsub (Nat.le_refl _) (Nat.le_refl _)
-    -- no live job with serial k is left once j is erased
-    have hgone : ∀ x ∈ s.tl ++ s.inflight.eraseP (fun j => j.serial == k), x.serial ≠ j.serial := by
-      intro x hx hs
-      have hns := h.nodupSer
-      rcases mem_append.1 hx with hx | hx
-      · -- x in tl, j in inflight
-        have := (pairwise_append.1 hns).2.2 x hx j hjmem
-        exact this hs
-      · have hinf : s.inflight.Pairwise (fun a b => a.serial ≠ b.serial) := (pairwise_append.1 hns).2.1
-        -- x survives the erase of the first element with serial k; by uniqueness x ≠ that element
-        rw [hjser] at hs
-        exact eraseP_serial_gone hinf x hx hs
-    by_cases hp : j.period = 0
-    · simp only [hp, if_true, hro]
-      exact h1
-    · simp only [hp, if_false, hrr, if_true]
-      exact WF_schedule (s := { s with inflight := s.inflight.eraseP (fun j => j.serial == k) }) h1 j false
-        (h.serLt j (by simp [hjmem])) hgone
-        (by
-          intro f hf hs
-          obtain ⟨a, b⟩ := h.link f hf j (by simp [hjmem]) hs.symm
-          exact ⟨a, b, hp⟩)
+/-- what `reschedule` does, case by case -/
+theorem reschedule_cases (s : Cron) (j : Job) :
+    (reschedule s j = s ∧ ∀ x ∈ s.running, x.serial ≠ j.serial) ∨
+    ((∃ x ∈ s.running, x.serial = j.serial) ∧
+      reschedule s j = { s with running := s.running.eraseP (fun x => x.serial == j.serial), tl := insertJob (schedJob s.clock j) s.tl,
+                                armed := rearm (insertJob (schedJob s.clock j) s.tl) }) := by
+  have hi : insertRearms = true := rfl
+  unfold reschedule
+  by_cases ha : s.running.any (fun x => x.serial == j.serial) = true
+  · right
+    refine ⟨?_, by simp [ha, hi]⟩
+    obtain ⟨x, hx, hxs⟩ := any_eq_true.1 ha
+    exact ⟨x, hx, by simpa using hxs⟩
+  · left
+    refine ⟨by simp [ha], ?_⟩
+    intro x hx hxs
+    exact ha (any_eq_true.2 ⟨x, hx, by simpa using hxs⟩)
+
+theorem reschedule_fields (s : Cron) (j : Job) :
+    (reschedule s j).inflight = s.inflight ∧ (reschedule s j).log = s.log ∧ (reschedule s j).clock = s.clock ∧
+    (reschedule s j).serial = s.serial ∧ (reschedule s j).limit = s.limit ∧ (reschedule s j).suspended = s.suspended ∧
+    (reschedule s j).paused = s.paused := by
+  rcases reschedule_cases s j with ⟨e, _⟩ | ⟨_, e⟩ <;> rw [e] <;> simp
 
 /-- what `done` does, case by case -/
 theorem done_cases (s : Cron) (k : Nat) :
     (done s k = s ∧ ∀ j ∈ s.inflight, j.serial ≠ k) ∨
     ∃ j, j ∈ s.inflight ∧ j.serial = k ∧
       ((j.period = 0 ∧ done s k = { s with inflight := s.inflight.eraseP (fun j => j.serial == k) }) ∨
-       (j.period ≠ 0 ∧ done s k = (schedule { s with inflight := s.inflight.eraseP (fun j => j.serial == k) } j false).1)) := by
+       (j.period ≠ 0 ∧ done s k = reschedule { s with inflight := s.inflight.eraseP (fun j => j.serial == k) } j)) := by
   have hro : rescheduleOnce = false := rfl
   have hrr : rescheduleRecurring = true := rfl
+  have hrv : rescheduleViaRunning = true := rfl
   unfold done
   split
   · rename_i hnone
@@ -412,11 +518,74 @@ theorem done_cases (s : Cron) (k : Nat) :
     refine ⟨j, mem_of_find?_eq_some hfind, by simpa using find?_some hfind, ?_⟩
     by_cases hp : j.period = 0
     · left; refine ⟨hp, ?_⟩; simp [hp, hro]
-    · right; refine ⟨hp, ?_⟩; simp [hp, hrr]
+    · right; refine ⟨hp, ?_⟩; simp [hp, hrr, hrv]
+
+theorem WF_done {s : Cron} (h : WF s) (k : Nat) : WF (done s k) := by
+  rcases done_cases s k with ⟨e, _⟩ | ⟨j, hjmem, hjser, ⟨hp, e⟩ | ⟨hp, e⟩⟩
+  · rw [e]; exact h
+  all_goals
+    have hsub : (s.inflight.eraseP (fun j => j.serial == k)).Sublist s.inflight := eraseP_sublist
+    -- no live job with serial k is left once j is erased
+    have hgone : ∀ x ∈ s.tl ++ s.inflight.eraseP (fun j => j.serial == k), x.serial ≠ j.serial := by
+      intro x hx hs
+      have hns := h.nodupSer
+      rcases mem_append.1 hx with hx | hx
+      · exact (pairwise_append.1 hns).2.2 x hx j hjmem hs
+      · rw [hjser] at hs
+        exact eraseP_serial_gone h.nodupSerInfl x hx hs
+  · -- a one-shot: it is not in `running`, which therefore stays inside the in-flight jobs
+    rw [e]
+    refine h.mono (Sublist.refl _) hsub (Sublist.refl _) ?_ (Nat.le_refl _) (Nat.le_refl _)
+    apply sublist_eraseP_of_forall_not h.runSub
+    intro x hx hxs
+    have hxs' : x.serial = j.serial := by rw [hjser]; simpa using hxs
+    have := h.run_eq hx hjmem hxs'
+    subst this
+    exact h.runRec x hx hp
+  · rw [e]
+    rcases reschedule_cases { s with inflight := s.inflight.eraseP (fun j => j.serial == k) } j with ⟨e2, hno⟩ | ⟨⟨x, hx, hxs⟩, e2⟩
+    · -- removed or replaced while `Fn` ran: dropped
+      rw [e2]
+      refine h.mono (Sublist.refl _) hsub (Sublist.refl _) ?_ (Nat.le_refl _) (Nat.le_refl _)
+      apply sublist_eraseP_of_forall_not h.runSub
+      intro x hx hxs
+      exact hno x hx (by rw [hjser]; simpa using hxs)
+    · rw [e2]
+      have hx' : x ∈ s.running := hx
+      have hxj : x = j := h.run_eq hx' hjmem hxs
+      subst hxj
+      have hsubr : (s.running.eraseP (fun y => y.serial == x.serial)).Sublist s.running := eraseP_sublist
+      have hrunser : s.running.Pairwise (fun a b => a.serial ≠ b.serial) := h.nodupSerInfl.sublist h.runSub
+      have h1 : WFc s.tl (s.inflight.eraseP (fun j => j.serial == k)) (s.running.eraseP (fun y => y.serial == x.serial)) s.log s.clock s.serial := by
+        refine h.mono (Sublist.refl _) hsub hsubr ?_ (Nat.le_refl _) (Nat.le_refl _)
+        rw [hjser]; exact h.runSub.eraseP
+      obtain ⟨i1, i2, i3⟩ := schedJob_id s.clock x
+      show WFc (insertJob (schedJob s.clock x) s.tl) _ _ _ _ _
+      apply h1.insert
+      · rw [i2]; exact h.serLt x (by simp [hjmem])
+      · intro y hy; rw [i2]; exact hgone y hy
+      · intro y hy; rw [i1]
+        rcases mem_append.1 hy with hy | hy
+        · exact (pairwise_append.1 h.nodupIdR).2.2 y hy x hx'
+        · have hys : y.serial ≠ x.serial := eraseP_serial_gone hrunser y hy
+          have hyne : y ≠ x := fun e => hys (by rw [e])
+          exact pairwise_mem_ne (fun a b hab => fun e => hab e.symm) h.nodupIdRun y (hsubr.subset hy) x hx' hyne
+      · rw [i3]; intro hp'
+        rcases schedJob_next s.clock x with ⟨h0, _⟩ | ⟨_, hn⟩
+        · exact absurd h0 hp'
+        · rw [hn]; exact nextOcc_mod _ _
+      · intro f hf hs
+        rw [i2] at hs; rw [i1, i3]
+        obtain ⟨a, b⟩ := h.link f hf x (by simp [hjmem]) hs.symm
+        refine ⟨a, b, hp, ?_⟩
+        rcases schedJob_next s.clock x with ⟨h0, _⟩ | ⟨_, hn⟩
+        · exact absurd h0 hp
+        · rw [hn]
+          exact Nat.lt_of_le_of_lt (h.logOk f hf).2.2.1 (nextOcc_gt hp)
 
 theorem WF_step {s : Cron} (h : WF s) (op : Op) : WF (step s op) := by
   cases op with
-  | advance d => exact h.mono (Sublist.refl _) (Sublist.refl _) (Nat.le_add_right _ _) (Nat.le_refl _)
+  | advance d => exact h.mono (Sublist.refl _) (Sublist.refl _) (Sublist.refl _) h.runSub (Nat.le_add_right _ _) (Nat.le_refl _)
   | add id due period => exact WF_add h id due period
   | rem id => exact WF_rem h id
   | tick => exact WF_tick h
